@@ -59,7 +59,7 @@ func itoa(i int) string { return strconv.Itoa(i) }
 
 // ---------------------------------------------------------------- documents for the RFC 6902 harnesses
 
-const nDocShapes = 13
+const nDocShapes = 18
 
 // docShape builds document shape i; leaves are symbolic.
 func docShape(i int, pfx string) *JV {
@@ -91,6 +91,18 @@ func docShape(i int, pfx string) *JV {
 		return jObj().with("a", jArr(jArr(n(0))))
 	case 12:
 		return jObj().with("c", n(0)).with("a", n(1)).with("b", jBool(true))
+	case 13:
+		// strings whose escaped length depends on the bytes (<, >, & allowed)
+		return jObj().with("a", jStr([]byte{symPlain(pfx + "h0"), symPlain(pfx + "h1")})).with("b", n(0))
+	case 14:
+		return jObj().with("a", jObj().with("s", jStr([]byte{symPlain(pfx + "h0")})).with("t", jNull())).with("b", &JV{K: JArr, Kids: []*JV{}})
+	case 15:
+		return jArr(jStr([]byte{symPlain(pfx + "h0")}), jNull(), n(0))
+	case 16:
+		// number literals that must survive verbatim (C05): d.d, -0, 23 digits, 1e400, -d, dEdd; members not in sorted order
+		return jObj().with("q", litNum(pfx, 0)).with("b", litNum(pfx, 1)).with("z", litNum(pfx, 2)).with("a", litNum(pfx, 3)).with("m", litNum(pfx, 4)).with("c", litNum(pfx, 5))
+	case 17:
+		return jArr(litNum(pfx, 2), jObj().with("y", litNum(pfx, 0)).with("x", litNum(pfx, 3)), litNum(pfx, 5), litNum(pfx, 1))
 	}
 	panic("docShape")
 }
@@ -213,4 +225,25 @@ func renderPatch(ops []Op) []byte {
 		out = renderOp(out, op)
 	}
 	return append(out, ']')
+}
+
+
+// litNum: number templates with symbolic digits.
+func litNum(pfx string, i int) *JV {
+	d := func(k int) byte { return symDigit(pfx + "l" + itoa(i) + "." + itoa(k)) }
+	switch i {
+	case 0:
+		return jNum([]byte{d(0), '.', d(1)})
+	case 1:
+		return jNumS("-0")
+	case 2:
+		return jNum([]byte{'1', '2', '3', '4', '5', '6', '7', '8', '9', '0', d(0), '2', '3', '4', '5', '6', '7', '8', '9', '0', d(1), '2', d(2)})
+	case 3:
+		return jNumS("1e400")
+	case 4:
+		return jNum([]byte{'-', symDigit19(pfx + "l4.0")})
+	case 5:
+		return jNum([]byte{symDigit19(pfx + "l5.0"), 'E', d(1), d(2)})
+	}
+	panic("litNum")
 }
